@@ -4,7 +4,7 @@ from __future__ import annotations
 import itertools, re, fnmatch
 from pyvc.api import *
 
-NAMES = ["sel", "notepad", "android", "organic", "all_x", "anyx", "ofx", "them1", "x-1", "_u", "sel_1", "sel_2", "n1", "not_wanted", "not-x", "and_x", "or-1", "_wanted", "1-x", "of_1", "rules"]
+NAMES = ["sel", "notepad", "android", "organic", "all_x", "anyx", "ofx", "them1", "x-1", "_u", "sel_1", "sel_2", "n1", "not_wanted", "not-x", "and_x", "or-1", "_wanted", "1-x", "of_1", "rules", "all", "any", "1"]
 
 
 def tokenize(s):
